@@ -141,6 +141,8 @@ def methods_of(ctx, clsqual):
                 out.update(methods_of(ctx, q))
     for name, fi in c.methods.items():
         out[name] = fi.node
+        if name.startswith('__') and not name.endswith('__'):
+            out['_' + c.name.lstrip('_') + name] = fi.node          # a private method also answers to its mangled name (each class keeps its own)
     return out
 
 
@@ -154,6 +156,8 @@ def owners_of(ctx, clsqual):
                 out.update(owners_of(ctx, q))
     for name in c.methods:
         out[name] = c.name
+        if name.startswith('__') and not name.endswith('__'):
+            out['_' + c.name.lstrip('_') + name] = c.name
     return out
 
 
@@ -191,9 +195,24 @@ def classnames_of(ctx, clsqual):
     return out
 
 
+def mro_of(ctx, clsqual):
+    """[(class name, {method name: FunctionDef defined in that class})] from the class to its repository bases (depth first, as far as
+    single inheritance and simple mix-ins go)"""
+    c = ctx.prog.cls(clsqual)
+    out = [(c.name, {name: fi.node for name, fi in c.methods.items()})]
+    for b in c.bases:
+        for q, ci in ctx.prog.classes.items():
+            if ci.name == b.split('.')[-1] and ci is not c:
+                for entry in mro_of(ctx, q):
+                    if entry[0] not in [e_[0] for e_ in out]:
+                        out.append(entry)
+    return out
+
+
 def instance(ctx, clsqual, fields, fn, isa=None):
     c = ctx.prog.cls(clsqual)
     o = orders.Obj(dict(fields), methods_of(ctx, clsqual), fn, isa=isa or {c.name})
+    o.mro = mro_of(ctx, clsqual)
     o.classnames = classnames_of(ctx, clsqual)
     o.clsname = c.name
     o.clsqual = clsqual
